@@ -37,6 +37,12 @@ fn main() {
             }
             println!("{} types, {} families, {} convs", reg.types.len(), reg.families.len(), reg.convs.len());
         }
+        "families" => {
+            let reg = sim::registry::build();
+            for f in &reg.families {
+                println!("{} {} block={} split={}", f.name, f.krate, f.block, f.split);
+            }
+        }
         "worker" => worker(&args),
         "check" => check(&args),
         "replay" => replay(&args),
